@@ -591,6 +591,7 @@ def run(ck):
             ck.dist["call=%s" % k] += 1
         ck.traces += 1
 
+    lindblad_stream(ck, numpy, snapshot, diff)
     # ---- model ---------------------------------------------------------------------------------------------------------
     out = ck.drive(DRIVER, lines)
     if out is not None:
@@ -614,3 +615,92 @@ def run(ck):
             if "ado" in h and rec["op"] == "heom" and int(m["ado"]) != int(h["ado"]):
                 ck.disagree("auxiliary operators after a hierarchy run", inp, h["ado"], m["ado"])
     return ck.finish()
+
+
+def lindblad_stream(ck, numpy, snapshot, diff):
+    """system-bath interactions given by operators and rates (Lindblad theories of the builder, LindbladForm used directly): the
+    operators handed in stay what they were and a repeated build / propagation gives the same result, whatever was done in between
+    (secular option, conversion to a tensor, use inside a basis context)"""
+    from quantarhei import Molecule, Aggregate, TimeAxis, energy_units, eigenbasis_of, ReducedDensityMatrix, Hamiltonian
+    from quantarhei.qm import SystemBathInteraction, ProjectionOperator, Operator, LindbladForm, ReducedDensityMatrixPropagator
+    rng = ck.rng
+    ta = TimeAxis(0.0, 40, 1.0)
+    quiet = lambda: contextlib.redirect_stdout(io.StringIO())
+    for s in range(ck.n(3, 12)):
+        nmol = 3 if s % 2 == 0 else rng.choice([2, 3, 4])
+        with energy_units("1/cm"):
+            agg = Aggregate([Molecule([0.0, 12000.0 + 90.0 * k + rng.randint(-30, 30)]) for k in range(nmol)])
+            for i in range(nmol):
+                for j in range(i + 1, nmol):
+                    agg.set_resonance_coupling(i, j, rng.choice([60.0, -120.0, 200.0]))
+        agg.build()
+        dim = agg.get_Hamiltonian().dim
+        ops, rates = [], []
+        for i in range(1, dim):
+            for j in range(1, dim):
+                if i != j and (rng.random() < 0.6 or not ops):
+                    ops.append(ProjectionOperator(i, j, dim=dim)); rates.append(rng.randint(2, 16) / 1600.0)
+        sbi = SystemBathInteraction(ops, rates=rates)
+        agg.set_SystemBathInteraction(sbi)
+        ham = agg.get_Hamiltonian()
+        r0 = numpy.zeros((dim, dim), dtype=complex); r0[dim - 1, dim - 1] = 0.7; r0[1, 1] = 0.3; r0[1, dim - 1] = r0[dim - 1, 1] = 0.2
+        rho0 = ReducedDensityMatrix(data=r0.copy())
+        inputs = {"ham": ham, "sbi": sbi, "time": ta, "rho0": rho0}
+        base = snapshot(inputs)
+        sysinp = {"sites": nmol, "rates": rates, "system_bath_interaction": "projection operators with rates"}
+
+        def build(theory, sec):
+            with quiet():
+                RT, hR = agg.get_RelaxationTensor(ta, relaxation_theory=theory, secular_relaxation=sec)
+                pr = ReducedDensityMatrixPropagator(ta, hR, RT)
+                ev = numpy.array(pr.propagate(rho0).data).ravel()
+            if getattr(RT, "as_operators", False):
+                res = numpy.concatenate([numpy.array(RT.Km).ravel(), numpy.array(RT.Lm).ravel()])
+            else:
+                res = numpy.array(RT.data).ravel()
+            return numpy.concatenate([res, ev])
+
+        def direct(what):
+            """LindbladForm built from the same objects and used inside the basis context of the Hamiltonian"""
+            with quiet():
+                LF = LindbladForm(ham, sbi)
+                with eigenbasis_of(ham):
+                    if what == "secularize":
+                        LF.secularize()
+                    elif what == "convert_2_tensor":
+                        LF.convert_2_tensor()
+                    else:
+                        LF.apply(ReducedDensityMatrix(data=r0.copy()))
+                if getattr(LF, "as_operators", False):
+                    LF.convert_2_tensor()
+                return numpy.array(LF.data).ravel()
+
+        calls = [("build", "Lindblad_form", False), ("build", "Lindblad_form", True), ("build", "electronic_Lindblad", False),
+                 ("build", "electronic_Lindblad", True), ("direct", "secularize"), ("direct", "convert_2_tensor"), ("direct", "apply")]
+        plan = [calls[0], calls[1], calls[0]] + [rng.choice(calls) for _ in range(4)] + [calls[4 + s % 3], calls[0], calls[1], calls[4 + (s + 1) % 3]]
+        first, hist = {}, []
+        for c in plan:
+            desc = "%s(%s)" % (c[0], ", ".join(str(x) for x in c[1:]))
+            inp = dict(sysinp, history=hist + [desc])
+            try:
+                res = build(c[1], c[2]) if c[0] == "build" else direct(c[1])
+            except Exception as e:
+                ck.fail("raises:lindblad:%s" % c[0], "%s raised %r" % (desc, e), inp)
+                hist.append(desc)
+                continue
+            bad = diff(base, snapshot(inputs), tol={"ham._data": 1e-14} if c[0] == "direct" else {"ham._data": 9e-16})
+            # (direct: the harness itself enters a basis context; builds: 4 ulp as in the main histories)
+            if bad:
+                ck.fail("frame:lindblad:%s" % ":".join(str(x) for x in c), "inputs changed by the call: %s" % (bad[:3],), inp)
+                base = snapshot(inputs)          # report every call that changes them, not every later call
+            elif c[0] == "direct":
+                base = snapshot(inputs)          # rounding left by the harness's own context is not charged to later calls
+            if c in first:
+                dv = float(numpy.abs(res - first[c]).max()) if res.shape == first[c].shape else float("inf")
+                if dv > 1e-10:
+                    ck.fail("repeat:lindblad:%s" % ":".join(str(x) for x in c), "repeating the call with the same inputs gives another result", inp, dv)
+            else:
+                first[c] = res
+            hist.append(desc)
+        ck.case(("lindblad-history", s, tuple(hist)), nontrivial=True, sites=nmol, calls=len(plan))
+        ck.traces += 1
